@@ -150,6 +150,51 @@ fn check_ctors(run: &Run, acc: &mut Acc) {
         }
         let _ = std::fs::remove_file(&path);
     }
+    // non-UTF-8 bytes in each string argument: never a live handle
+    {
+        let valid = cs(&code36().sparse().alist());
+        let good_impl = cs("Phif64");
+        let empty = cs("");
+        let bads: Vec<CString> = [&b"\xff"[..], &b"1,1,\xff"[..], &b"1,\xc3,0"[..], &b"\xc3\x28"[..]].iter().map(|b| CString::new(b.to_vec()).unwrap()).collect();
+        for bad in &bads {
+            for which in 0..3 {
+                acc.evals += 1;
+                acc.nontrivial += 1;
+                let (a, i, p) = match which {
+                    0 => (&valid, &good_impl, bad),
+                    1 => (&valid, bad, &empty),
+                    _ => (bad, &good_impl, &empty),
+                };
+                let key = format!("capi:ctor:non-utf8:{:?}:arg{}", bad, which);
+                let r = guard(|| unsafe {
+                    let h = ldpc_toolbox_decoder_ctor_alist_string(a.as_ptr(), i.as_ptr(), p.as_ptr());
+                    let dn = h.is_null();
+                    if !dn {
+                        ldpc_toolbox_decoder_dtor(h);
+                    }
+                    let en = if which != 1 {
+                        let e = ldpc_toolbox_encoder_ctor_alist_string(a.as_ptr(), p.as_ptr());
+                        let n = e.is_null();
+                        if !n {
+                            ldpc_toolbox_encoder_dtor(e);
+                        }
+                        n
+                    } else {
+                        true
+                    };
+                    (dn, en)
+                });
+                match r {
+                    Err(e) => acc.violate(key, format!("constructor panicked: {}", e), json!({"kind": "ctors"})),
+                    Ok((dn, en)) => {
+                        if !dn || !en {
+                            acc.violate(key, format!("a constructor returned a handle although argument {} ({:?}) is not valid (decoder null: {}, encoder null: {})", which, bad, dn, en), json!({"kind": "ctors"}));
+                        }
+                    }
+                }
+            }
+        }
+    }
     // unreadable file
     let missing = cs(tmpdir.join("does_not_exist.alist").to_str().unwrap());
     let (impc, pc) = (cs("Phif64"), cs(""));
@@ -393,7 +438,7 @@ pub fn run(run: &Run) -> i32 {
         run,
         acc,
         Coverage {
-            rule: "constructors: 7 alist texts (valid 3x6, staircase 3x5, singular tail, truncated, non-numeric, out-of-range index, empty) x text and file variants x (36 names + 5 non-names) x 9 puncturing strings for the decoder, x 9 puncturing strings for the encoder, plus an unreadable path: null exactly when a Rust-side prerequisite fails; decoder handles: for each of 36 names x {no puncturing, '1,1,0'} on the 3x6 code, EVERY call sequence of length <= 3 over 48 (72 thorough) calls (f64/f32 x 4 (6) LLR buffers x max_iterations {0,1,5} x output_len {k, n}), each call compared with a fresh Rust decoder on the depunctured (f32-widened) LLRs; encoder handles: every input in {0,1,2,255}^k on two codes x puncturing patterns, twice per handle. states/transitions = handle call sequences executed. Non-trivial = call made on a handle that has already been used / rejected constructor / punctured or non-binary encoder input.".into(),
+            rule: "constructors: 7 alist texts (valid 3x6, staircase 3x5, singular tail, truncated, non-numeric, out-of-range index, empty) x text and file variants x (36 names + 5 non-names) x 9 puncturing strings for the decoder, x 9 puncturing strings for the encoder, plus an unreadable path and non-UTF-8 byte strings in every argument position: null exactly when a Rust-side prerequisite fails; decoder handles: for each of 36 names x {no puncturing, '1,1,0'} on the 3x6 code, EVERY call sequence of length <= 3 over 48 (72 thorough) calls (f64/f32 x 4 (6) LLR buffers x max_iterations {0,1,5} x output_len {k, n}), each call compared with a fresh Rust decoder on the depunctured (f32-widened) LLRs; encoder handles: every input in {0,1,2,255}^k on two codes x puncturing patterns, twice per handle. states/transitions = handle call sequences executed. Non-trivial = call made on a handle that has already been used / rejected constructor / punctured or non-binary encoder input.".into(),
             exhaustive: true,
             extra: serde_json::Map::new(),
             graph: Some(graph),
